@@ -32,6 +32,18 @@ func Script(name string, nmax int) []Op {
 		for i := 0; i < nmax; i++ {
 			ops = append(ops, Op{K: "insert", I: uint64(i / 2), V: cls[i%len(cls)]})
 		}
+	case "arr-kids": // nested children (inlined and standalone) spread over a multi-level array
+		ops = append(ops, Op{K: "newarr"})
+		cls := []string{"limA", "A:t", "mid", "A:h,h", "t", "s:A:t", "limA", "M:t"}
+		for i := 0; i < nmax; i++ {
+			ops = append(ops, Op{K: "insert", I: uint64(i / 2), V: cls[i%len(cls)]})
+		}
+	case "map-kids": // nested children as map values, controlled digests
+		ops = append(ops, Op{K: "newmap"})
+		cls := []string{"limM", "A:t", "mid", "A:h,h", "t", "s:M:t", "limM", "M:t"}
+		for i := 0; i < nmax; i++ {
+			ops = append(ops, Op{K: "mset", Key: i, V: cls[i%len(cls)]})
+		}
 	case "arr-drain-front": // grow to nmax/2 with limA, then remove from the front
 		ops = append(ops, Op{K: "newarr"})
 		h := nmax / 2
@@ -167,6 +179,12 @@ func init() {
 		sp.isMap = len(s.Seed) >= 3 && s.Seed[:3] == "map"
 		return sp
 	})
+	RegisterSpace("traj-kids", func(s Spec) Space {
+		s.Oracles = append(s.Oracles, "kids")
+		sp := &trajSpace{baseSpace: baseSpace{spec: s}}
+		sp.isMap = len(s.Seed) >= 3 && s.Seed[:3] == "map"
+		return sp
+	})
 }
 
 func (t *trajSpace) controlled() bool { return t.isMap }
@@ -235,12 +253,60 @@ func (t *trajSpace) Build(path []Op) (*World, error) {
 		w.KeyStorage = true
 		w.TwinBase = func() (*World, error) { return t.Build(nil) }
 	}
+	if t.spec.Has("kids") {
+		// handles to every nested child near a leaf boundary are obtained up front (by lookup), so
+		// that depth-2 paths are "restructure the parent, then mutate the child through a handle
+		// obtained before the restructuring"
+		for _, ch := range t.kidsNear(w) {
+			if err := w.Reget(ch); err != nil {
+				return nil, err
+			}
+		}
+	}
 	for _, op := range path {
 		if err := w.Apply(op); err != nil {
 			return nil, err
 		}
 	}
 	return w, nil
+}
+
+// kidsNear lists the nested children of c0 that sit within two positions of a leaf boundary.
+func (t *trajSpace) kidsNear(w *World) []*Cont {
+	c := w.Conts[0]
+	if err := w.EnsureHandle(c); err != nil {
+		return nil
+	}
+	starts := leafStarts(w)
+	n := c.Count()
+	near := map[int]bool{0: true, n - 1: true}
+	for _, s := range starts {
+		for d := -2; d <= 2; d++ {
+			near[s+d] = true
+		}
+	}
+	vals := c.Elems
+	var order []int
+	if c.IsMap {
+		vals = c.Vals
+		order, _ = w.canonMapOrder(c)
+	} else {
+		for i := 0; i < n; i++ {
+			order = append(order, i)
+		}
+	}
+	var out []*Cont
+	for pos, idx := range order {
+		if !near[pos] {
+			continue
+		}
+		if u, _ := Unwrap(vals[idx]); u != nil {
+			if ch, ok := u.(*Cont); ok && !ch.Dead {
+				out = append(out, ch)
+			}
+		}
+	}
+	return out
 }
 
 // leafBounds returns, for the root container c0, the element index at which every leaf starts
@@ -288,7 +354,79 @@ func (t *trajSpace) Ops(w *World) []Op {
 	return out
 }
 
+// kidsOps: operations of the "kids" mode: handles to nested children near leaf boundaries are obtained
+// (reget), the parent is restructured at the boundaries, the children are mutated through the handles.
+func (t *trajSpace) kidsOps(w *World) []Op {
+	c := w.Conts[0]
+	if err := w.EnsureHandle(c); err != nil {
+		return nil
+	}
+	starts := leafStarts(w)
+	n := c.Count()
+	near := map[int]bool{}
+	for _, s := range starts {
+		for d := -2; d <= 2; d++ {
+			if s+d >= 0 && s+d < n {
+				near[s+d] = true
+			}
+		}
+	}
+	near[0], near[n-1] = true, true
+	var ops []Op
+	vals := c.Elems
+	var order []int
+	if c.IsMap {
+		vals = c.Vals
+		order, _ = w.canonMapOrder(c)
+	} else {
+		for i := 0; i < n; i++ {
+			order = append(order, i)
+		}
+	}
+	// children whose handle was obtained up front (they may have moved since)
+	for _, idx := range order {
+		u, _ := Unwrap(vals[idx])
+		ch, ok := u.(*Cont)
+		if !ok || ch.Dead || (ch.Arr == nil && ch.Map == nil) {
+			continue
+		}
+		if ch.IsMap {
+			ops = append(ops, Op{K: "mset", C: ch.Serial, Key: 60, V: "h"}, Op{K: "mset", C: ch.Serial, Key: 61, V: "h"})
+			if ch.Count() > 0 {
+				ops = append(ops, Op{K: "pop", C: ch.Serial})
+			}
+		} else {
+			ops = append(ops, Op{K: "append", C: ch.Serial, V: "h"}, Op{K: "append", C: ch.Serial, V: "t"})
+			if ch.Count() > 0 {
+				ops = append(ops, Op{K: "remove", C: ch.Serial, I: 0}, Op{K: "pop", C: ch.Serial})
+			}
+		}
+	}
+	// parent restructuring at the boundaries
+	for pos := range near {
+		if c.IsMap {
+			k := int(keyNumber(c.Keys[order[pos]]))
+			ops = append(ops, Op{K: "mremove", C: 0, Key: k})
+			if k < 10000 {
+				ops = append(ops, Op{K: "mset", C: 0, Key: 10000 + k, V: "limM"})
+			}
+		} else {
+			ops = append(ops, Op{K: "insert", C: 0, I: uint64(pos), V: "limA"}, Op{K: "remove", C: 0, I: uint64(pos)})
+		}
+	}
+	sortOps(ops)
+	ops = append(ops, t.eventOps()...)
+	return ops
+}
+
+func sortOps(ops []Op) {
+	sort.SliceStable(ops, func(a, b int) bool { return ops[a].String() < ops[b].String() })
+}
+
 func (t *trajSpace) allOps(w *World) []Op {
+	if t.spec.Has("kids") {
+		return t.kidsOps(w)
+	}
 	c := w.Conts[0]
 	if err := w.EnsureHandle(c); err != nil {
 		return nil
